@@ -10,6 +10,7 @@ UNITS = {
     "linalg": {"rlimit": 50},
     "linalg_f64": {"rlimit": 50},
     "fx": {"rlimit": 50},
+    "ppspline": {"rlimit": 50},
 }
 
 COMMON_ASSUMPTIONS = [
@@ -182,7 +183,15 @@ CHECKS = {
     },
     "C09": {
         "units": ["fx"],
-        "extra": "c09",
+        "extra": "probe_engine",
+        "probe": {
+            "func": "create_fx_array", "name": "c09::triangulation_probe (bounded)", "where": "rust/fx/rates/mod.rs",
+            "bound": "quote trees on 2..8 currencies: chain, star, binary, interleaved, irregular, caterpillar shapes; every orientation of every quote for n <= 7 (5 patterns above); up to 4 rotations of the quote list; 4 base choices; 9 degenerate quote sets; update / order histories of 10 steps on 2..5 currencies",
+            "bound_thorough": "as quick, with trees on 2..12 currencies",
+            "rule": "evaluations = cross rates (and, at first order, sensitivities) compared with the path-product oracle on the quote tree; a case is one (tree shape, orientation mask, quote order, base) market or one history step, all distinct by construction; every case has >= 2 currencies so no case is trivial",
+            "what": "stand-in for mut_arrays_remaining_elements / create_fx_array, which are outside the verifier's reach (recursion over sum_axis / zip / filter / max_by_key / itertools::combinations / HashSet)",
+            "trusted": "replay/src/probe_fx.rs: the oracle (path product on the quote tree found by breadth-first search) is written from the property text; rustc codegen",
+        },
         "level": "other",
         "explanation": "mixed: the rejection clauses and the two seeding functions are proved (Verus); the graph fill-in itself is only explored by a bounded probe on the real code (labelled bounded, not proved)",
         "assumptions": CHRONO_ASSUMPTIONS + [
@@ -222,6 +231,29 @@ CHECKS = {
             "row order independence (needs uniqueness of the solution, not derived)",
             "floating point conditioning (`well-conditioned`) is outside a real-number contract",
             "NaN entries make argabsmax panic (partial_cmp().unwrap()): outside the model",
+        ],
+    },
+    "C15": {
+        "units": ["ppspline"],
+        "extra": "probe_engine",
+        "probe": {
+            "func": "csolve", "name": "c15::solved_spline_probe (bounded)", "where": "rust/splines/spline.rs",
+            "bound": "orders 2..5, four interior knot layouts, Greville sites (natural layout with repeated end sites and second-derivative conditions for order 4), data of a degree k-1 polynomial: interpolation conditions, polynomial reproduction of value and all derivatives at 21 points, mismatched site counts, sensitivities to dual data against unit-data splines; plus the basis probe of C14 (orders 1..6, six knot layouts, knots / midpoints / near-knot points)",
+            "rule": "evaluations = basis values compared with the independent piecewise Cox-de Boor oracle; cases = solved splines; all cases distinct (order x knot layout)",
+            "what": "stand-in for the clauses of C15 no contract here can express: polynomial reproduction and sensitivities to dual data",
+            "trusted": "replay/src/probe_splines.rs oracles (piecewise Cox-de Boor / de Boor derivative formula, polynomial data) written from the property text; rustc codegen",
+        },
+        "level": "proof",
+        "assumptions": [
+            "machine arithmetic treated as mathematical (f64 as reals); the coefficient / data type T is an abstract module over the reals (shim/module.rs) - Dual and Dual2 instances assumed to satisfy its axioms",
+            "`non-singular` collocation matrix is taken as `regular` (contracts/linalg_f64.vx) of whatever array holds it; that admissible site sets give a regular matrix (Schoenberg-Whitney) is NOT proved",
+            "fdsolve / fdmul11_ contracts as verified in unit linalg_f64 (C13); bsplev_single_f64 / bspldnev_single_f64 contracts as verified in unit splines (C14)",
+            "ranges `(0..n).map`, slice to_owned, Array1::from_vec, Array2::zeros: shim contracts",
+        ],
+        "uncovered": [
+            "polynomial reproduction (Marsden's identity) and the sensitivity clauses (dual data, dual abscissa): not expressible here without a formalised spline theory",
+            "least-squares mode: only the error returns are covered",
+            "ppdnev_single_dual / ppdnev_single_dual2 / mapped_value",
         ],
     },
     "C07": {
